@@ -10,6 +10,15 @@ from .common import calls_named
 MTUS = range(512, 1501)
 
 
+def _parents_of(node, stop):
+    out = []
+    p = getattr(node, "_parent", None)
+    while p is not None and p is not stop:
+        out.append(p)
+        p = getattr(p, "_parent", None)
+    return out
+
+
 def _conjuncts(test):
     if isinstance(test, ast.BoolOp) and isinstance(test.op, ast.And):
         out = []
@@ -63,52 +72,71 @@ class Capacity(object):
     # ---- extraction ------------------------------------------------------
 
     def _extract_guards(self):
-        """admission guards `size <= CAP` of _build_packet_impl (resend loop and new-message loop) and the linear
-        accounting model of the two packing loops (see class Accounting)"""
+        """admission guards of _build_packet_impl (resend loop and new-message loop) and the linear accounting model of the two
+        packing loops (see class Accounting).  Anchored on the admit statement `msgs.append(<message>)` inside a loop: the
+        conditions under which it executes (CFG, leaf tests with polarity) give the size bound  E <= CAP  and the count bound
+        len(msgs) < K  however they are spelled (one condition, nested ifs, guard clauses with continue); E is read through the
+        temporaries that hold it; the statements that share the admit statement's block and conditions are the admit branch."""
+        import types
+        from engine.cfg import cfg_of
+        from .common import sym_expr
         fi = self.bpi
+        cfg = cfg_of(fi)
         self.guards = []
-        size_defs = [n for n in walk_own(fi.node) if isinstance(n, ast.Assign) and isinstance(n.targets[0], ast.Name)
-                     and n.targets[0].id == "size"]
-        for sd in size_defs:
-            blk = _block_of(sd)
-            idx = blk.index(sd)
-            guard = None
-            for st in blk[idx + 1:]:
-                if isinstance(st, ast.If) and any(isinstance(n, ast.Name) and n.id == "size" for n in ast.walk(st.test)):
-                    guard = st
-                    break
-            if guard is None:
-                raise Undecided("capacity model: no admission guard after %s" % norm(sd))
+        admits = [c for c in walk_own(fi.node) if isinstance(c, ast.Call) and norm(c.func) == "msgs.append" and len(c.args) == 1 and isinstance(c.args[0], ast.Name)
+                  and any(isinstance(p_, (ast.For, ast.While)) for p_ in _parents_of(c, fi.node))]
+        flip = {ast.Lt: ast.Gt, ast.LtE: ast.GtE, ast.Gt: ast.Lt, ast.GtE: ast.LtE}
+        compl = {ast.Lt: ast.GtE, ast.LtE: ast.Gt, ast.Gt: ast.LtE, ast.GtE: ast.Lt}
+        for c in admits:
+            node = cfg.node_of(c)
+            msgvar = c.args[0].id
             cap = None
             count_guard = None
-            for cj in _conjuncts(guard.test):
-                if isinstance(cj, ast.Compare) and len(cj.ops) == 1:
-                    l, r, op = cj.left, cj.comparators[0], cj.ops[0]
-                    if norm(l) == "size" and isinstance(op, (ast.LtE, ast.Lt)):
-                        cap = (r, 0 if isinstance(op, ast.LtE) else -1)
-                    elif norm(r) == "size" and isinstance(op, (ast.GtE, ast.Gt)):
-                        cap = (l, 0 if isinstance(op, ast.GtE) else -1)
-                    elif norm(l) == "len(msgs)" and isinstance(op, (ast.Lt, ast.LtE)):
-                        count_guard = (r, 0 if isinstance(op, ast.Lt) else 1)
-                    elif norm(r) == "len(msgs)" and isinstance(op, (ast.Gt, ast.GtE)):
-                        count_guard = (l, 0 if isinstance(op, ast.Gt) else 1)
-                    else:
-                        raise Undecided("capacity model: unmodelled admission conjunct %s" % norm(cj))
-                else:
-                    raise Undecided("capacity model: unmodelled admission conjunct %s" % norm(cj))
+            size_expr = None
+            texts = []
+            for (t, pol) in cfg.conditions_of(node.id, loop_exits=False):
+                tn = cfg.node_of(t)
+                e = sym_expr(fi, t, tn, allow_calls=("len", "Packet.overhead"), keep=(msgvar, "msgs")) if tn is not None else t
+                if not (isinstance(e, ast.Compare) and len(e.ops) == 1 and type(e.ops[0]) in flip):
+                    if any(isinstance(x, ast.Name) and x.id == "msgs" for x in ast.walk(e)) or ".payload" in norm(e):
+                        raise Undecided("capacity model: unmodelled admission conjunct %s" % norm(t))
+                    continue
+                l, r, op = e.left, e.comparators[0], type(e.ops[0])
+                if not pol:
+                    op = compl[op]
+                texts.append("%s %s %s" % (norm(l), {ast.Lt: "<", ast.LtE: "<=", ast.Gt: ">", ast.GtE: ">="}[op], norm(r)))
+                # orient: small side on the left
+                if op in (ast.Gt, ast.GtE):
+                    l, r, op = r, l, flip[op]
+                measures = lambda x: any(isinstance(y, ast.Call) and norm(y.func) == "len" and y.args and norm(y.args[0]) == "%s.payload" % msgvar for y in ast.walk(x))
+                if measures(l) and not measures(r):
+                    if cap is not None:
+                        raise Undecided("capacity model: two size bounds on one admission")
+                    cap = (r, 0 if op is ast.LtE else -1)
+                    size_expr = l
+                elif norm(l) == "len(msgs)":
+                    count_guard = (r, 0 if op is ast.Lt else 1)
+                elif measures(r) or "len(msgs)" in norm(e):
+                    raise Undecided("capacity model: unmodelled admission conjunct %s" % norm(t))
             if cap is None:
-                raise Undecided("capacity model: admission guard does not bound size: %s" % norm(guard.test))
-            # statements of the same block that precede the guard (temporaries feeding `size`)
-            pre = [st for st in blk[:blk.index(guard)] if isinstance(st, ast.Assign) and isinstance(st.targets[0], ast.Name)]
-            # the message variable: the name whose .payload length is measured
-            msgvar = None
-            for st in pre:
-                for c in ast.walk(st.value):
-                    if isinstance(c, ast.Call) and norm(c.func) == "len" and norm(c.args[0]).endswith(".payload"):
-                        msgvar = norm(c.args[0].value)
-            if msgvar is None:
-                raise Undecided("capacity model: the size computation does not measure a payload: %s" % norm(sd.value))
-            self.guards.append({"if": guard, "cap": cap, "count": count_guard, "msg": msgvar, "size": sd, "pre": pre})
+                raise Undecided("capacity model: the admission of %s is not bounded by a size test" % msgvar)
+            # admit branch: the statements of the admit statement's block that execute under the same conditions
+            st = c
+            while not isinstance(st, ast.stmt):
+                st = st._parent
+            blk = _block_of(st)
+            want = {(id(t), p_) for (t, p_) in cfg.conditions_of(node.id, loop_exits=False)}
+            body = []
+            for s_ in blk:
+                sn = cfg.node_of(s_)
+                if sn is None:
+                    sn = next((cfg.node_of(x) for x in ast.walk(s_) if cfg.node_of(x) is not None), None)
+                if sn is not None and {(id(t), p_) for (t, p_) in cfg.conditions_of(sn.id, loop_exits=False)} >= want:
+                    body.append(s_)
+            sd = ast.parse("size = %s" % norm(size_expr)).body[0]
+            test = ast.parse(" and ".join("(%s)" % t_ for t_ in texts) or "True", mode="eval").body
+            self.guards.append({"if": types.SimpleNamespace(test=test, body=body, lineno=st.lineno), "cap": cap, "count": count_guard, "msg": msgvar, "size": sd, "pre": [sd]})
+        self.guards.sort(key=lambda g: g["if"].lineno)
         if len(self.guards) < 2:
             raise AnchorMissing("capacity model: admission guards in _build_packet_impl: %d < 2" % len(self.guards))
         self.accounting = Accounting(self)
